@@ -21,6 +21,21 @@ CHECKS = {
   note="Cross-run comparison is skipped once a transaction enabled the overflow area (page identities inside the meta area are map-order dependent); identities inside the meta area are never compared across runs.",
   technique="differential (twin-run) property testing with rapid-generated programs",
   design="4/C07"),
+ "C10": dict(
+  text="Twin execution of a generated program with and without interposed close/reopen items: outcomes, bytes read, capacity probes and user-visible allocator state must agree; inside one run the complete internal state before Close must equal the state after Open. Generators force multi-page free lists / overwrite mappings, regions >= 255 pages and remaps.",
+  note="Page ids after reopen are not required to match (only outcomes); differences must be stable under repetition (map-order nondeterminism of meta-area internals is filtered); thorough tier adds native fuzzing of the (de)serialisers.",
+  technique="differential (twin-run) property testing + round-trip invariant, rapid generators with shaping scenarios",
+  design="4/C10"),
+ "C11": dict(
+  text="Exploration over long bounded histories with a capacity probe after every item: allocatable + live + meta area + 2 == max pages, file extent <= max size, FileStats equal model/hook values, every page below the data end marker accounted for.",
+  note="Probe relies on exact rollback (C07); overflow-area transactions are excluded as the property states.",
+  technique="model-based property testing (rapid) with conservation invariant",
+  design="4/C11"),
+ "C15": dict(
+  text="For every generated prefix history the complete method x receiver-state matrix of Tx and Page (and, in the queue part, Reader/Writer/ACK) is executed under recover(): no panic, documented error kind, committed state and running transaction unchanged.",
+  note="Only documented error kinds are asserted; matrix is exhaustive per prefix, prefixes are sampled.",
+  technique="property testing with exhaustive per-case enumeration of the misuse matrix",
+  design="4/C15"),
 }
 
 NOT_APPLICABLE = {}
